@@ -137,7 +137,9 @@ func (p *probe) exit() {
 }
 
 func (p *probe) Init(args ...any) error {
-	p.cfg = args[0].(probeCfg)
+	if p.cfg.rec == nil { // not preset by a factory
+		p.cfg = args[0].(probeCfg)
+	}
 	p.r = p.cfg.rec
 	p.SetTrapExit(p.cfg.trap)
 	p.enter("I")
